@@ -13,8 +13,8 @@
 #include <stdatomic.h>
 #include <unistd.h>
 
-enum { K_SLEEP, K_PROVIDER, K_SOCKRECV, K_CTXRECV, K_DIAL, K_ACCEPT, K_STREAMRECV, K_NKINDS };
-static const char *kind_names[] = { "sleep", "provider", "sock-recv", "ctx-recv", "dial-aio", "stream-accept", "stream-recv" };
+enum { K_SLEEP, K_PROVIDER, K_SOCKRECV, K_CTXRECV, K_DIAL, K_ACCEPT, K_STREAMRECV, K_SOCKSEND, K_NKINDS };
+static const char *kind_names[] = { "sleep", "provider", "sock-recv", "ctx-recv", "dial-aio", "stream-accept", "stream-recv", "sock-send" };
 
 enum { A_NONE, A_CANCEL, A_ABORT, A_STOP, A_CLOSE, A_NACTS };
 static const char *act_names[] = { "none", "cancel", "abort", "stop", "close" };
@@ -39,6 +39,9 @@ typedef struct arec {
 	int             prov_have_final;
 	int             cancel_delay_us;
 	_Atomic uint64_t t_expire_pick; // last time the expire loop picked this aio (hook)
+	// K_SOCKSEND: result of every submission (index = submission number)
+	int             send_rv[40];
+	_Atomic int     send_seq; // submission number of the message now attached
 	// outcome accounting
 	_Atomic int     results[8];
 	struct casectx *cx;
@@ -55,12 +58,16 @@ typedef struct casectx {
 	int         nrec;
 	arec        rec[8];
 	_Atomic int msgs_sent, msgs_recv_ok, msgs_recv_err_with_msg;
+	uint8_t     got[8][40]; // K_SOCKSEND: times (record, submission) was received by the peer
 	nng_stream *accepted[64];
 	_Atomic int naccepted;
 	uint8_t     rbuf[8][64];
 } casectx;
 
 static pthread_mutex_t prov_mtx = PTHREAD_MUTEX_INITIALIZER;
+static pthread_mutex_t sendlog_mtx = PTHREAD_MUTEX_INITIALIZER;
+
+static void sendlog_add(struct casectx *cx, nng_msg *m);
 static casectx *_Atomic cur_cx;
 
 // hook: remember when the expire loop picked one of our aios (its deadline had
@@ -79,6 +86,20 @@ ev_hook(int ev, const void *obj, uintptr_t a, uintptr_t b)
 	}
 }
 static long            case_no;
+
+static void
+sendlog_add(casectx *cx, nng_msg *m)
+{
+	uint32_t a = 99, b = 99;
+	if (nng_msg_len(m) >= 8) {
+		nng_msg_trim_u32(m, &a);
+		nng_msg_trim_u32(m, &b);
+	}
+	pthread_mutex_lock(&sendlog_mtx);
+	if (a < 8 && b < 40 && cx->got[a][b] < 200) cx->got[a][b]++;
+	pthread_mutex_unlock(&sendlog_mtx);
+	nng_msg_free(m);
+}
 
 static const char *
 resname(int rv)
@@ -236,6 +257,20 @@ cb(void *arg)
 			r->cx->accepted[k] = st;
 		}
 	}
+	if (r->kind == K_SOCKSEND) {
+		int      sq = atomic_load(&r->send_seq);
+		nng_msg *m  = nng_aio_get_msg(r->aio);
+		if (sq >= 0 && sq < 40) r->send_rv[sq] = rv == 0 ? 1 : 2;
+		if (rv != 0) {
+			if (m == NULL) {
+				vf_violation("C02/send-failed-without-msg", "send completed with %s but the message is no longer attached to the aio", resname(rv));
+			} else {
+				// ours again: free it; a resubmission builds a new one
+				nng_aio_set_msg(r->aio, NULL);
+				nng_msg_free(m);
+			}
+		}
+	}
 	if (r->kind == K_SOCKRECV || r->kind == K_CTXRECV) {
 		nng_msg *m = nng_aio_get_msg(r->aio);
 		if (rv == 0) {
@@ -290,6 +325,23 @@ submit(arec *r, bool from_cb)
 	case K_SOCKRECV:
 		nng_socket_recv(cx->s, r->aio);
 		break;
+	case K_SOCKSEND: {
+		nng_msg *m;
+		int      sq = atomic_load(&r->n_submit) - 1; // this submission
+		if (sq >= 40 || nng_msg_alloc(&m, 0) != 0) {
+			// out of bookkeeping room: complete it ourselves as a provider would
+			atomic_store(&r->send_seq, -1);
+			nng_aio_reset(r->aio);
+			if (nng_aio_start(r->aio, NULL, NULL)) nng_aio_finish(r->aio, NNG_ECANCELED), atomic_store(&r->cancel_issued, 1);
+			break;
+		}
+		nng_msg_append_u32(m, (uint32_t) r->idx);
+		nng_msg_append_u32(m, (uint32_t) sq);
+		atomic_store(&r->send_seq, sq);
+		nng_aio_set_msg(r->aio, m);
+		nng_socket_send(cx->s, r->aio);
+		break;
+	}
 	case K_CTXRECV:
 		nng_ctx_recv(cx->ctx[r->idx], r->aio);
 		break;
@@ -352,6 +404,7 @@ actor_thread(void *arg)
 			for (int i = 0; i < cx->nrec; i++) atomic_store(&cx->rec[i].close_issued, 1);
 			switch (cx->kind) {
 			case K_SOCKRECV: nng_socket_close(cx->s); break;
+			case K_SOCKSEND: nng_socket_close(cx->s); break;
 			case K_CTXRECV: nng_ctx_close(cx->ctx[best]); break;
 			case K_DIAL: nng_dialer_close(cx->dialer); break;
 			case K_ACCEPT: nng_stream_listener_close(cx->sl); break;
@@ -393,6 +446,15 @@ completer_thread(void *arg)
 				// REQ: must receive a reply (or time out) before next request
 				nng_msg *rep = NULL;
 				if (nng_recvmsg(cx->peer, &rep, 0) == 0) nng_msg_free(rep);
+			}
+			vf_usleep((int) vf_below(&p->rng, 800));
+		}
+		break;
+	case K_SOCKSEND:
+		for (int i = 0; i < p->ncomplete; i++) {
+			nng_msg *m = NULL;
+			if (nng_recvmsg(cx->peer, &m, 0) == 0) {
+				sendlog_add(cx, m);
 			}
 			vf_usleep((int) vf_below(&p->rng, 800));
 		}
@@ -462,6 +524,7 @@ run_case(long idx, vf_rng *r)
 	if (!strcmp(vf_mode, "provider")) cx->kind = vf_chance(r, 3, 4) ? K_PROVIDER : K_SLEEP;
 	cx->nrec = (int) vf_range(r, 1, cx->kind == K_PROVIDER || cx->kind == K_SLEEP ? 6 : 3);
 	if (cx->kind == K_SOCKRECV || cx->kind == K_DIAL || cx->kind == K_ACCEPT) cx->nrec = (int) vf_range(r, 1, 2);
+	if (cx->kind == K_SOCKSEND) cx->nrec = (int) vf_range(r, 1, 4);
 	if (cx->kind == K_DIAL || cx->kind == K_STREAMRECV) cx->nrec = 1;
 
 	vf_pt_off();
@@ -481,6 +544,13 @@ run_case(long idx, vf_rng *r)
 		nng_socket_set_int(cx->s, NNG_OPT_RECVBUF, 8);
 		nng_socket_set_int(cx->peer, NNG_OPT_SENDBUF, 8);
 		nng_socket_set_ms(cx->peer, NNG_OPT_SENDTIMEO, 3000);
+		if ((rv = vf_connect(cx->s, cx->peer, tran)) != 0) vf_harness_fail("connect: %s", nng_strerror(rv));
+		break;
+	case K_SOCKSEND:
+		if (nng_pair1_open(&cx->s) || nng_pair1_open(&cx->peer)) vf_harness_fail("open");
+		nng_socket_set_int(cx->s, NNG_OPT_SENDBUF, (int) vf_below(r, 3));
+		nng_socket_set_int(cx->peer, NNG_OPT_RECVBUF, (int) vf_below(r, 3));
+		nng_socket_set_ms(cx->peer, NNG_OPT_RECVTIMEO, 30);
 		if ((rv = vf_connect(cx->s, cx->peer, tran)) != 0) vf_harness_fail("connect: %s", nng_strerror(rv));
 		break;
 	case K_CTXRECV:
@@ -658,6 +728,26 @@ run_case(long idx, vf_rng *r)
 		vf_stat("conservation_checked", 1);
 	}
 	atomic_store(&cur_cx, NULL);
+	// conservation for sends (pair1 is lossless): a send that completed with 0
+	// is received exactly once, a send that failed is never received
+	if (cx->kind == K_SOCKSEND && !atomic_load(&cx->rec[0].close_issued)) {
+		nng_msg *m;
+		vf_quiesce(1, 500);
+		nng_socket_set_ms(cx->peer, NNG_OPT_RECVTIMEO, 100);
+		while (nng_recvmsg(cx->peer, &m, 0) == 0) sendlog_add(cx, m);
+		for (int i = 0; i < cx->nrec; i++) {
+			int ns = atomic_load(&cx->rec[i].n_submit);
+			for (int q = 0; q < ns && q < 40; q++) {
+				int st = cx->rec[i].send_rv[q], got = cx->got[i][q];
+				if (st == 1 && got != 1) {
+					vf_violation(got == 0 ? "C02/send-ok-but-lost" : "C02/send-duplicated", "pair1 send #%d of aio %d completed with 0 but the peer received it %d times", q, i, got);
+				} else if (st == 2 && got != 0) {
+					vf_violation("C02/send-failed-but-delivered", "pair1 send #%d of aio %d completed with an error but the peer received the message %d time(s)", q, i, got);
+				}
+			}
+		}
+		vf_stat("send_conservation_checked", 1);
+	}
 	for (int i = 0; i < cx->nrec; i++) {
 		arec *a = &cx->rec[i];
 		nng_aio_free(a->aio);
@@ -669,6 +759,7 @@ run_case(long idx, vf_rng *r)
 	// tear down
 	switch (cx->kind) {
 	case K_SOCKRECV:
+	case K_SOCKSEND:
 		nng_socket_close(cx->s);
 		nng_socket_close(cx->peer);
 		break;
